@@ -28,31 +28,52 @@ var _ = strings.HasPrefix
 // ---------------------------------------------------------------------------------------------
 // C11: token codes. A character literal is numbered by its character code (the first rune of the lexeme).
 
+// Token cursor (C13, used by C11): "fetched" tokens have been received; peekCount of them are buffered again;
+// pos = fetched - peekCount tokens are consumed. tokKind(i) is the kind of the i-th token as the parser sees it
+// (end of input once the channel is closed).
+//@ def tokKind(i int) = ite(spec_recvOK(i), spec_recv(i).Kind, EOF)
+//@ def REP(p *parser) = p != nil && p.lex != nil && 0 <= p.peekCount && p.peekCount <= 2 && fetched >= 1 && fetched >= p.peekCount &&
+//@     p.tokenArr[0].Kind == tokKind(fetched-1) && (p.peekCount == 2 ==> fetched >= 2 && p.tokenArr[1].Kind == tokKind(fetched-2))
+//@ def SLOT1(p *parser) = p.peekCount == 1 ==> fetched >= 2 && p.tokenArr[1].Kind == tokKind(fetched-2)
+//@ def CURK(p *parser) = p.current.Kind == tokKind(fetched - 1 - p.peekCount)
+// TOK: properties of every token the lexer produces (assumed where a token is received): a character token has a
+// non-empty lexeme; EndAt is a position inside the input
+//@ def TOK(p *parser) = (p.current.Kind == Charater ==> len(p.current.Value) >= 1) && 0 <= p.current.EndAt && p.current.EndAt <= len(p.lex.input)
+//@ def CUR(p *parser) = CURK(p) && TOK(p)
+// STREAM (hypothesis about the lexer, see the lexer contracts): from some index E on every token is EOF or Error
+//@ axiom STREAM: spec_E() >= 0 && (forall i int :: i >= spec_E() ==> tokKind(i) == EOF || tokKind(i) == tokenError)
+
 //@ func (*parser).next
-//@ trusted token cursor (verified separately under C13); assumed lexer postcondition: a character token carries a non-empty lexeme
-//@ props C11
-//@ ensures p.current.Kind == Charater ==> len(p.current.Value) >= 1
-//@ modifies p.current, p.tokenArr, p.peekCount
+//@ props C11 C13
+//@ requires p != nil && p.lex != nil && 0 <= p.peekCount && p.peekCount <= 2 && fetched >= p.peekCount && (p.peekCount >= 1 ==> REP(p))
+//@ ensures [C13] REP(p) && CURK(p) && p.lex == old(p.lex)
+//@ ensures [C13] old(p.peekCount) > 0 ==> p.peekCount == old(p.peekCount) - 1 && fetched == old(fetched) && p.tokenArr == old(p.tokenArr)
+//@ ensures [C13] old(p.peekCount) == 0 ==> p.peekCount == 0 && fetched == old(fetched) + 1 && p.tokenArr[1] == old(p.tokenArr[1])
+// assumed lexer postcondition
+//@ assumes TOK(p)
+//@ modifies p.current, p.tokenArr, p.peekCount, fetched
 
 //@ func (*parser).backup
-//@ trusted token cursor
-//@ props C11
+//@ props C11 C13
+//@ requires REP(p) && (p.peekCount == 0 || (p.peekCount == 1 && fetched >= 2 && p.tokenArr[1].Kind == tokKind(fetched-2)))
+//@ ensures [C13] REP(p) && p.peekCount == old(p.peekCount) + 1 && fetched == old(fetched) && p.current == old(p.current) && p.tokenArr == old(p.tokenArr)
 //@ modifies p.peekCount
 
 //@ func (*parser).backup2
-//@ trusted token cursor
-//@ props C11
+//@ props C11 C13
+//@ requires REP(p) && fetched >= 2 && t1.Kind == tokKind(fetched-2)
+//@ ensures [C13] REP(p) && p.peekCount == 2 && fetched == old(fetched) && p.current == old(p.current) && p.tokenArr[1] == t1
 //@ modifies p.tokenArr, p.peekCount
 
 //@ func (*parser).expect
-//@ trusted token cursor
-//@ props C11
-//@ ensures p.current.Kind == Charater ==> len(p.current.Value) >= 1
-//@ modifies p.current, p.tokenArr, p.peekCount, p.err
+//@ props C11 C13
+//@ requires REP(p) && CUR(p)
+//@ ensures [C13] REP(p) && CUR(p) && fetched - p.peekCount >= old(fetched - p.peekCount) && p.peekCount <= old(p.peekCount) && (old(p.peekCount) == 0 ==> p.peekCount == 0) && p.lex == old(p.lex)
+//@ modifies p.current, p.tokenArr, p.peekCount, p.err, fetched
 
 //@ func (*parser).error
-//@ trusted records a diagnostic
-//@ props C11
+//@ props C11 C13
+//@ requires p != nil
 //@ modifies p.err
 
 //@ func genTempName
@@ -61,20 +82,35 @@ var _ = strings.HasPrefix
 //@ modifies nothing
 
 //@ func (*parser).parseTokendef
-//@ props C11
+//@ props C11 C13
+//@ use STREAM
+//@ requires REP(p) && CUR(p) && p.peekCount == 0
 //@ requires p.current.Kind == Charater ==> len(p.current.Value) >= 1
+//@ ensures [C13] REP(p) && CUR(p) && p.peekCount == 0 && fetched > old(fetched)
 //@ after_stmt [C11] "id := Idendity{" p.current.Kind == Charater ==> id.Value == int(rune_at(p.current.Value, 0))
+//@ loop 0: invariant REP(p) && CUR(p) && p.peekCount == 0 && fetched > old(fetched)
 //@ loop 0: invariant p.current.Kind == Charater ==> len(p.current.Value) >= 1
+//@ loop 0: decreases spec_E() + 1 - fetched
 
 //@ func (*parser).parsePrecList
-//@ props C11
-//@ requires Tklist != nil && (p.current.Kind == Charater ==> len(p.current.Value) >= 1)
+//@ props C11 C13
+//@ use STREAM
+//@ requires Tklist != nil && REP(p) && CUR(p) && p.peekCount == 0 && (p.current.Kind == Charater ==> len(p.current.Value) >= 1)
+//@ ensures [C13] REP(p) && CUR(p) && p.peekCount == 0 && fetched > old(fetched)
 //@ after_stmt [C11] "idvalue = " idvalue == int(rune_at(p.current.Value, 0))
+//@ loop 0: invariant REP(p) && p.peekCount <= 1 && fetched - p.peekCount >= old(fetched) && (p.peekCount == 0 ==> CUR(p))
+//@ loop 0: decreases spec_E() + 2 - (fetched - p.peekCount)
 
 //@ func (*parser).parseRule
-//@ props C11
-//@ requires toklst != nil && (p.current.Kind == Charater ==> len(p.current.Value) >= 1)
+//@ props C11 C13
+//@ use STREAM
+//@ results rules
+//@ requires toklst != nil && REP(p) && CUR(p) && p.peekCount <= 1 && SLOT1(p)
+//@ ensures [C13] REP(p) && TOK(p) && p.lex == old(p.lex) && (!isnil(rules) ==> CUR(p) && p.peekCount <= 1 && SLOT1(p) && fetched - p.peekCount > old(fetched - p.peekCount))
 //@ after_stmt [C11] "id := Idendity{" id.Value == int(rune_at(p.current.Value, 0))
+//@ loop 0: invariant REP(p) && CUR(p) && p.peekCount <= 1 && SLOT1(p) && fetched - p.peekCount > old(fetched - p.peekCount)
+//@ loop 0: invariant p.lex == old(p.lex)
+//@ loop 0: decreases spec_E() + 2 - (fetched - p.peekCount)
 
 // ---------------------------------------------------------------------------------------------
 // C13: generation terminates on every input text.
@@ -84,6 +120,7 @@ var _ = strings.HasPrefix
 
 func spec_recv(i int) Token  { panic("spec") }
 func spec_recvOK(i int) bool { panic("spec") }
+func spec_E() int            { panic("spec") }
 
 //@ ghostvar fetched int
 
@@ -376,3 +413,41 @@ func spec_recvOK(i int) bool { panic("spec") }
 //@ requires wfL(l)
 //@ loop 0: invariant wfL(l) && isState(state) && (state == CommentState ==> commentAhead(l)) && (state == DirectiveState ==> l.end >= 1)
 //@ loop 0: decreases (len(l.input) - l.end, rank(state))
+
+//@ func (*parser).parseTypeList
+//@ props C13
+//@ use STREAM
+//@ requires REP(p) && CUR(p) && p.peekCount == 0
+//@ ensures [C13] REP(p) && CUR(p) && p.peekCount == 0 && fetched > old(fetched)
+//@ loop 0: invariant REP(p) && CUR(p) && p.peekCount == 0 && fetched > old(fetched)
+//@ loop 0: decreases spec_E() + 1 - fetched
+
+//@ func (*parser).parseStartSymbol
+//@ props C13
+//@ requires REP(p) && CUR(p) && p.peekCount == 0
+//@ ensures [C13] REP(p) && CUR(p) && p.peekCount == 0 && fetched > old(fetched)
+
+// the declaration section: every iteration consumes at least one token, and the loop stops at the first EOF, Section or
+// Error token - which the stream is bound to deliver (STREAM)
+//@ func (*parser).parseDeclare
+//@ props C13
+//@ use STREAM
+//@ results node
+//@ requires p != nil && p.lex != nil && p.peekCount == 0 && fetched >= 0
+//@ ensures [C13] node != nil ==> REP(p) && CUR(p) && p.peekCount == 0 && typeis(node, *DeclareNode) && iface_val(node) != 0 && p.lex == old(p.lex)
+//@ loop 0: invariant REP(p) && CUR(p) && p.peekCount == 0 && p.lex == old(p.lex)
+//@ loop 0: decreases spec_E() + 1 - fetched
+
+//@ func Lex
+//@ trusted creates the lexer and starts its goroutine (go l.run()); the goroutine is verified as sequential code, the hand-over of tokens is assumption A-seq
+//@ props C13
+//@ ensures result != nil && fresh(result) && result.input == source
+//@ allocates lexer
+
+// the rule section: every successful parseRule consumes at least one token; the loop ends when parseRule finds no rule
+//@ func Parse
+//@ props C13
+//@ use STREAM
+//@ requires fetched >= 0
+//@ loop 0: invariant p != nil && REP(p) && CUR(p) && p.peekCount <= 1 && SLOT1(p) && decl != nil && p.lex == before(p.lex)
+//@ loop 0: decreases spec_E() + 2 - (fetched - p.peekCount)
